@@ -3,6 +3,8 @@ pub mod c02;
 pub mod c03;
 pub mod c04;
 pub mod c07;
+pub mod c08;
+pub mod c12;
 pub mod c13;
 pub mod c14;
 pub mod c19;
@@ -40,4 +42,13 @@ pub fn catch<T>(f: impl FnOnce() -> T) -> Result<T, String> {
         Ok(v) => Ok(v),
         Err(_) => Err(LAST_PANIC.with(|p| p.borrow_mut().take()).unwrap_or_else(|| "panic".into())),
     }
+}
+
+thread_local! {
+    /// oracle violations observed while a monitored worker case runs (drained by the worker loop)
+    pub static ORACLE_FINDINGS: std::cell::RefCell<Vec<(String, String)>> = const { std::cell::RefCell::new(Vec::new()) };
+}
+
+pub fn oracle_report(sig: &str, what: String) {
+    ORACLE_FINDINGS.with(|f| f.borrow_mut().push((sig.to_string(), what)));
 }
